@@ -263,6 +263,55 @@ def search(acc: Acc, tier, shard, nshards):
         return []
 
     hyp_search(acc, ID, "inputs", shard, n, body, tier)
+    if tier == "thorough":
+        atheris_campaign(acc, shard, TIERS[tier]["atheris_runs"])
+
+
+def atheris_campaign(acc, shard, runs):
+    """One libFuzzer process per shard: own (fresh, empty) corpus directory, -seed derived from VERIF_SEED.
+    Reproducibility of a libFuzzer campaign is approximate; the saved input is the reproducible unit."""
+    import glob
+    import json
+    import shutil
+
+    script = os.path.join(env.VERIF, "mfv", "fuzz_c11.py")
+    if not os.path.isdir(os.path.join(env.VERIF, ".deps", "atheris")):
+        acc.notes.append("atheris is not installed (/verif/.deps): thorough tier ran with Hypothesis only")
+        acc.cls("atheris:unavailable")
+        return
+    work = tempfile.mkdtemp(prefix="mfv_c11_fz_")
+    try:
+        findings = os.path.join(work, "findings")
+        corp = os.path.join(work, "corpus")
+        os.makedirs(corp)
+        seed = env.shard_seed(ID + "/atheris", shard) % (2 ** 31 - 2) + 1
+        e = dict(os.environ, MFV_REPO=env.REPO)
+        r = subprocess.run([script, findings, corp, f"-runs={runs}", f"-seed={seed}", "-max_len=600", "-timeout=60"],
+                           cwd=work, env=e, capture_output=True, text=True, timeout=3600)
+        st_ = {}
+        try:
+            with open(os.path.join(findings, "stats.json")) as f:
+                st_ = json.load(f)
+        except Exception:
+            pass
+        acc.evaluations += st_.get("n", 0)
+        acc.cls("atheris:executions", st_.get("n", 0))
+        acc.cls("atheris:accepted", st_.get("accepted", 0))
+        acc.cls("atheris:corpus_entries", len(os.listdir(corp)))
+        acc.notes.append(f"atheris shard {shard}: {st_} exit={r.returncode}")
+        for fn in sorted(glob.glob(os.path.join(findings, "finding_*.json"))):
+            with open(fn) as f:
+                v = json.load(f)
+            acc.violations.append({**v, "search": "atheris", "shard": shard, "round": 0, "seed": env.verif_seed(), "tier": "thorough"})
+        if r.returncode != 0 and not glob.glob(os.path.join(findings, "finding_*.json")):
+            tail = (r.stderr or "")[-400:]
+            # libFuzzer reports an uncaught exception / timeout itself: keep the crashing input
+            crash = sorted(glob.glob(os.path.join(work, "crash-*")) + glob.glob(os.path.join(work, "timeout-*")))
+            acc.violations.append({"bucket": "atheris:crash_or_timeout", "message": f"libFuzzer stopped abnormally: {tail}",
+                                   "case": {"text": "", "libfuzzer_artifacts": [os.path.basename(c) for c in crash]},
+                                   "search": "atheris", "shard": shard, "round": 0, "seed": env.verif_seed(), "tier": "thorough"})
+    finally:
+        shutil.rmtree(work, ignore_errors=True)
 
 
 # ------------------------------------------------------------------ fixed family + timing
